@@ -14,7 +14,7 @@ NA = {
 }
 CHECKS = {
  "C02": dict(
-   text="TLC enumerates every call history (integrate chunks incl. empty, predict incl. scaled/non-next rows, set_pva, getters) up to a depth bound over small increment tables and capacities {1,2,3,5} in Integrator.tla and proves the contract invariants (IndexOnce, Canonical, PrefixFrozen, PredictPure, ReturnShape, InBounds, refinement of the counter abstraction); TLC-simulated behaviours are then replayed on the real Integrator (subclass with INITIAL_SIZE = Cap0) comparing every row, return value and the time index bitwise with the property's own oracle (fresh object, one integrate call) after every action; random histories beyond the model bound and histories crossing the real 10 000-row capacity are trace-validated by IntegratorTrace.tla / IntegratorCapTrace.tla.",
+   text="TLC enumerates every call history (integrate chunks incl. empty, predict incl. scaled/non-next rows, set_pva, getters) up to a depth bound over small increment tables and capacities {1,2,3,5} in Integrator.tla and proves the contract invariants (IndexOnce, Canonical, PrefixFrozen, PredictPure, ReturnShape, InBounds, refinement of the counter abstraction); TLC-simulated behaviours are then replayed on the real Integrator (subclass with INITIAL_SIZE = Cap0) comparing every row, return value and the time index bitwise with the property's own oracle (fresh object, one integrate call) after every action; random histories beyond the model bound and histories crossing the real 10 000-row capacity are trace-validated by IntegratorTrace.tla / IntegratorCapTrace.tla; Apalache proves the capacity discipline of the counter abstraction as an inductive invariant for all table sizes and capacities.",
    note="Trusts: the single-shot oracle is the same code (numeric correctness is C01, not claimed); TLC; bounds N<=5 exhaustive, N<=7 simulated, N=40 recorded; Pva label order is documented for the constructor, arbitrary for set_pva.",
    technique="TLA+ model (Integrator.tla) checked exhaustively with TLC + replay of TLC-simulated behaviours into the real class + trace validation of recorded call histories",
    ref="DESIGN.md s5 (Integrator), s6 C02"),
